@@ -168,7 +168,53 @@ func runPair(out *lib.Out, rng *lib.Rng, base string, tc *lib.TravCase, thorough
 		}
 		emit(out, base+".x2", tc, env, c, utext)
 	}
+	// config reuse: ONE Config value serves 2-4 consecutive walks whose controls differ (start path changed or
+	// cleared, visit-once switched, budgets, skips); each walk must be the walk a Config of its own would give
+	if nv > 1 {
+		for h := 0; h < 2; h++ {
+			var hist []lib.TravCtl
+			steps := 2 + rng.Intn(3)
+			for k := 0; k < steps; k++ {
+				c := lib.NoCtl()
+				switch rng.Intn(6) {
+				case 0, 1:
+					c.HasStart, c.Start = true, starts[rng.Intn(len(starts))]
+				case 2:
+					c.Once = true
+				case 3:
+					c.NodeBudget = int64(rng.Intn(nv + 1))
+				case 4:
+					if len(dl) > 0 {
+						c.Skip = []string{dl[rng.Intn(len(dl))]}
+					}
+				}
+				hist = append(hist, c)
+			}
+			if h == 0 { // always: a start path first, then another one or none
+				hist[0] = lib.NoCtl()
+				hist[0].HasStart, hist[0].Start = true, starts[len(starts)-1-rng.Intn((len(starts)+1)/2)]
+				if rng.Bool() {
+					hist[1] = lib.NoCtl()
+				}
+			}
+			emitHistory(out, fmt.Sprintf("%s.h%d", base, h), tc, env, hist)
+		}
+	}
 	return true
+}
+
+func emitHistory(out *lib.Out, id string, tc *lib.TravCase, env *lib.TravEnv, hist []lib.TravCtl) {
+	sh := env.NewShared()
+	var texts, shared, fresh []string
+	for _, c := range hist {
+		texts = append(texts, c.Text())
+		evs, cls := sh.Run(c, false)
+		shared = append(shared, lib.TraceText(evs, cls, true))
+		evs, cls = env.Run(c, false)
+		fresh = append(fresh, lib.TraceText(evs, cls, true))
+	}
+	out.Case(id, "c15h", tc.Sel.Text(), tc.Root.Text(), tc.BlocksText(), strings.Join(texts, "!"),
+		"H"+strings.Join(shared, "#")+";F"+strings.Join(fresh, "#"))
 }
 
 func mustVal(s string) *lib.Val {
@@ -235,6 +281,27 @@ func main() {
 		witnesses(out)
 		for _, line := range lib.ReadLines(fl.Replay) {
 			f := strings.Split(line, "\t")
+			if len(f) >= 6 && f[1] == "c15h" {
+				tc := &lib.TravCase{Sel: mustVal(f[2]), Root: mustVal(f[3])}
+				var err error
+				if tc.Blocks, err = lib.ParseBlocks(f[4]); err != nil {
+					panic(err)
+				}
+				env, err := tc.Open()
+				if err != nil || env.SelErr != nil {
+					panic("history replay")
+				}
+				var hist []lib.TravCtl
+				for _, t := range strings.Split(f[5], "!") {
+					c, err := lib.ParseCtl(t)
+					if err != nil {
+						panic(err)
+					}
+					hist = append(hist, c)
+				}
+				emitHistory(out, f[0], tc, env, hist)
+				continue
+			}
 			if len(f) < 6 || f[1] != "c15" {
 				continue
 			}
